@@ -169,5 +169,8 @@ func runDirected(t *testing.T, idx int, rng *mon.RNG) {
 	if res.OK() && !w.viol.Load() {
 		newJudge(w).run()
 	}
+	if res.OK() && !w.viol.Load() {
+		w.checkChain("directed")
+	}
 	finishCase(idx, w, res, desc)
 }
